@@ -1506,3 +1506,502 @@ Proof.
   eexists. eexists. exists t. split; [vm_compute; reflexivity|]. split; [left; reflexivity|]. split; [reflexivity|].
   vm_compute. discriminate.
 Qed.
+
+(* ================================================================ conflicts: the removed set is closed under registered children *)
+
+Definition pend (s : pstate) (h : N) : option uval := um_get (ps_unmined s) h.
+
+(* the guard: no two pending transactions spend the same outpoint (the shape of finding
+   flag-lost:shared-input-key is excluded), and a registration under an outpoint is by a transaction
+   that has this outpoint among its inputs *)
+Definition guard (s : pstate) : Prop :=
+  (forall h1 t1 h2 t2 o, pend s h1 = Some (USer t1) -> pend s h2 = Some (USer t2) ->
+                         In o (t_ins t1) -> In o (t_ins t2) -> h1 = h2) /\
+  (forall o sp st, In sp (ui_get (ps_uinputs s) o) -> pend s sp = Some (USer st) -> In o (t_ins st)) /\
+  (* every pending record is a serialized transaction (the repaired Rollback; see rollback_readable) *)
+  (forall h, pend s h <> Some ULoc).
+
+(* an outpoint's registrations are untouched, or were deleted together with a removed transaction that spent it *)
+Definition intact (s s' : pstate) : Prop :=
+  forall o, ui_get (ps_uinputs s') o = ui_get (ps_uinputs s) o \/
+            (ui_get (ps_uinputs s') o = [] /\
+             exists X tX, pend s X = Some (USer tX) /\ pend s' X = None /\ In o (t_ins tX)).
+
+(* every registered spender of an output of a removed transaction is gone as well *)
+Definition closed (s s' : pstate) : Prop :=
+  forall X tX i D, pend s X = Some (USer tX) -> pend s' X = None -> In i (out_indexes tX) ->
+                   In D (ui_get (ps_uinputs s) (X, i)) -> pend s' D = None.
+
+(* no registration is left under an input of a removed transaction *)
+Definition cleared (s s' : pstate) : Prop :=
+  forall X tX o, pend s X = Some (USer tX) -> pend s' X = None -> In o (t_ins tX) -> ui_get (ps_uinputs s') o = [].
+
+Definition bundle (s s' : pstate) : Prop := shrinks s s' /\ intact s s' /\ closed s s' /\ cleared s s'.
+
+Lemma shrinks_none : forall s s' h, shrinks s s' -> pend s h = None -> pend s' h = None.
+Proof.
+  intros s s' h (A & _) H. unfold pend in *. destruct (um_get (ps_unmined s') h) as [v|] eqn:E; [|reflexivity].
+  apply A in E. congruence.
+Qed.
+
+Lemma guard_shrinks : forall s s', guard s -> shrinks s s' -> guard s'.
+Proof.
+  intros s s' (G1 & G2 & G3) (A & B & C). split; [|split].
+  - intros h1 t1 h2 t2 o H1 H2 I1 I2. eapply G1; eauto; apply A; assumption.
+  - intros o sp st Hin Hp. eapply G2; [apply C; exact Hin|apply A; exact Hp].
+  - intros h Hh. apply (G3 h). apply A. exact Hh.
+Qed.
+
+Lemma bundle_refl : forall s, bundle s s.
+Proof.
+  intros s. split; [apply shrinks_refl|]. split; [|split].
+  - intros o. left. reflexivity.
+  - intros X tX i D H1 H2. congruence.
+  - intros X tX o H1 H2. congruence.
+Qed.
+
+Lemma ui_get_empty_sub : forall s s' o, shrinks s s' -> ui_get (ps_uinputs s) o = [] -> ui_get (ps_uinputs s') o = [].
+Proof.
+  intros s s' o (_ & _ & C) H. destruct (ui_get (ps_uinputs s') o) as [|x xs] eqn:E; [reflexivity|].
+  assert (Hx : In x (ui_get (ps_uinputs s') o)) by (rewrite E; left; reflexivity).
+  apply C in Hx. rewrite H in Hx. destruct Hx.
+Qed.
+
+Lemma bundle_trans : forall a b c, guard a -> bundle a b -> bundle b c -> bundle a c.
+Proof.
+  intros a b c Ga (Sab & Iab & Cab & Kab) (Sbc & Ibc & Cbc & Kbc).
+  assert (Sac : shrinks a c) by (eapply shrinks_trans; eauto).
+  split; [exact Sac|]. split; [|split].
+  - intros o. destruct (Ibc o) as [E|[E (X & tX & P1 & P2 & P3)]].
+    + destruct (Iab o) as [E'|[E' (X & tX & P1 & P2 & P3)]].
+      * left. congruence.
+      * right. split; [congruence|]. exists X, tX. split; [exact P1|]. split; [exact (shrinks_none b c X Sbc P2)|exact P3].
+    + right. split; [exact E|]. exists X, tX. split; [exact (proj1 Sab X _ P1)|]. split; [exact P2|exact P3].
+  - intros X tX i D HX HXc Hi HD.
+    destruct (pend b X) as [v|] eqn:Eb.
+    + (* X is removed in the second part *)
+      assert (Ev : v = USer tX).
+      { pose proof (proj1 Sab X v Eb) as E. unfold pend in HX. congruence. }
+      subst v.
+      destruct (Iab (X, i)) as [E|[E (Y & tY & P1 & P2 & P3)]].
+      * apply (Cbc X tX i D Eb HXc Hi). rewrite E. exact HD.
+      * (* the key was deleted with a removed transaction Y that spends (X, i): D is that transaction, or not pending *)
+        destruct (pend a D) as [vD|] eqn:ED; [|exact (shrinks_none a c D Sac ED)].
+        destruct vD as [tD|].
+        -- assert (HDin : In (X, i) (t_ins tD)) by (eapply (proj1 (proj2 Ga)); eauto).
+           assert (EY : Y = D) by (eapply (proj1 Ga); eauto). subst Y.
+           exact (shrinks_none b c D Sbc P2).
+        -- exfalso. exact (proj2 (proj2 Ga) D ED).
+    + apply (shrinks_none b c D Sbc). eapply Cab; eauto.
+  - intros X tX o HX HXc Ho.
+    destruct (pend b X) as [v|] eqn:Eb.
+    + assert (Ev : v = USer tX).
+      { pose proof (proj1 Sab X v Eb) as E. unfold pend in HX. congruence. }
+      subst v. exact (Kbc X tX o Eb HXc Ho).
+    + apply (ui_get_empty_sub b c o Sbc). exact (Kab X tX o HX Eb Ho).
+Qed.
+
+Definition removed_ok (s : pstate) (h : N) (s' : pstate) : Prop := bundle s s' /\ pend s' h = None.
+
+Lemma fold_err : forall (A B : Type) (f : pres A -> B -> pres A) (l : list B) e,
+  (forall x, f (PErr e) x = PErr e) -> fold_left f l (PErr e) = PErr e.
+Proof. intros A B f l e H. induction l as [|x l IH]; cbn [fold_left]; [reflexivity|]. rewrite H. exact IH. Qed.
+
+(* the loop over the spenders registered under one outpoint *)
+Lemma fold_spenders_bundle :
+  forall (rc : pstate -> N -> tx -> pres pstate) (s1 : pstate),
+    guard s1 ->
+    (forall s2 sp st, guard s2 -> pend s2 sp = Some (USer st) -> okp (removed_ok s2 sp) (rc s2 sp st)) ->
+    forall sps s2 done_, bundle s1 s2 -> (forall x, In x done_ -> pend s2 x = None) ->
+      okp (fun s3 => bundle s1 s3 /\ forall x, In x (done_ ++ sps) -> pend s3 x = None)
+          (fold_left (fun (acc2 : pres pstate) (sp : N) =>
+                        match acc2 with
+                        | PErr e => PErr e
+                        | POk s2 => match um_get (ps_unmined s2) sp with
+                                    | None => POk s2
+                                    | Some ULoc => PErr EUnreadable
+                                    | Some (USer st) => rc s2 sp st
+                                    end
+                        end) sps (POk s2)).
+Proof.
+  intros rc s1 G1 Hrc sps. induction sps as [|sp sps IH]; intros s2 done_ B12 Hd; cbn [fold_left].
+  - split; [exact B12|]. intros x Hx. rewrite app_nil_r in Hx. exact (Hd x Hx).
+  - assert (G2 : guard s2) by (eapply guard_shrinks; [exact G1|exact (proj1 B12)]).
+    destruct (um_get (ps_unmined s2) sp) as [[st|]|] eqn:E.
+    + specialize (Hrc s2 sp st G2 E).
+      destruct (rc s2 sp st) as [s3|e].
+      * cbn [okp] in Hrc. destruct Hrc as [B23 N3].
+        assert (B13 : bundle s1 s3) by (eapply bundle_trans; eauto).
+        specialize (IH s3 (done_ ++ [sp]) B13).
+        assert (Hd3 : forall x, In x (done_ ++ [sp]) -> pend s3 x = None).
+        { intros x Hx. apply in_app_or in Hx. destruct Hx as [Hx|[<-|[]]]; [|exact N3].
+          exact (shrinks_none s2 s3 x (proj1 B23) (Hd x Hx)). }
+        specialize (IH Hd3). rewrite <- app_assoc in IH. exact IH.
+      * rewrite fold_err; [exact I|reflexivity].
+    + rewrite fold_err; [exact I|reflexivity].
+    + specialize (IH s2 (done_ ++ [sp]) B12).
+      assert (Hd3 : forall x, In x (done_ ++ [sp]) -> pend s2 x = None).
+      { intros x Hx. apply in_app_or in Hx. destruct Hx as [Hx|[<-|[]]]; [exact (Hd x Hx)|exact E]. }
+      specialize (IH Hd3). rewrite <- app_assoc in IH. exact IH.
+Qed.
+
+Lemma ui_get_del_inputs :
+  forall t l o, ui_get (del_inputs_of l t) o = if existsb (op_eqb o) (t_ins t) then [] else ui_get l o.
+Proof.
+  intros t. unfold del_inputs_of. generalize (t_ins t). intros ins.
+  induction ins as [|k ins IH]; intros l o; cbn [fold_left existsb]; [reflexivity|].
+  rewrite IH. rewrite ui_get_del. rewrite (op_eqb_sym o k).
+  destruct (op_eqb k o); cbn [orb]; [destruct (existsb (op_eqb o) ins); reflexivity|reflexivity].
+Qed.
+
+Lemma existsb_op_in : forall o l, existsb (op_eqb o) l = true <-> In o l.
+Proof.
+  intros o l. rewrite existsb_exists. split.
+  - intros [x [Hx E]]. apply op_eqb_eq in E. subst. exact Hx.
+  - intros H. exists o. split; [exact H|apply op_eqb_refl].
+Qed.
+
+Lemma bundle_ucredits : forall s s3 k, bundle s s3 -> bundle s (set_ucredits s3 (uc_del (ps_ucredits s3) k)).
+Proof.
+  intros s s3 k ((A & B & C) & I & Cl & K). split; [|split; [|split]].
+  - repeat split; auto. intros o c Hc. cbn [ps_ucredits set_ucredits] in Hc. rewrite uc_get_del in Hc.
+    destruct (op_eqb k o); [discriminate|]. apply B. exact Hc.
+  - exact I.
+  - exact Cl.
+  - exact K.
+Qed.
+
+Theorem remove_conflict_bundle :
+  forall fuel own s h t,
+    guard s -> pend s h = Some (USer t) -> okp (removed_ok s h) (remove_conflict fuel own s h t).
+Proof.
+  induction fuel as [|f IH]; intros own s h t G Hp; [exact I|].
+  cbn [remove_conflict].
+  match goal with |- okp _ (match fold_left ?po _ _ with _ => _ end) => set (per_out := po) end.
+  (* loop invariant: the bundle, and the registered spenders of the outputs handled so far are gone *)
+  assert (Hfold : forall idx done_ acc,
+            okp (fun s1 => bundle s s1 /\ forall i D, In i done_ -> In D (ui_get (ps_uinputs s) (h, i)) -> pend s1 D = None) acc ->
+            okp (fun s1 => bundle s s1 /\ forall i D, In i (done_ ++ idx) -> In D (ui_get (ps_uinputs s) (h, i)) -> pend s1 D = None)
+                (fold_left per_out idx acc)).
+  { induction idx as [|i idx IHi]; intros done_ acc Hacc; cbn [fold_left].
+    - rewrite app_nil_r. exact Hacc.
+    - replace (done_ ++ i :: idx) with ((done_ ++ [i]) ++ idx) by (rewrite <- app_assoc; reflexivity).
+      apply IHi. destruct acc as [s1|e]; [|exact I]. cbn [okp] in Hacc. destruct Hacc as [B1 D1].
+      unfold per_out.
+      assert (G1 : guard s1) by (eapply guard_shrinks; [exact G|exact (proj1 B1)]).
+      pose proof (fold_spenders_bundle (fun s2 sp st => remove_conflict f own s2 sp st) s1 G1
+                    (fun s2 sp st G2 P2 => IH own s2 sp st G2 P2)
+                    (ui_get (ps_uinputs s1) (h, i)) s1 [] (bundle_refl s1) (fun x Hx => match Hx with end)) as F.
+      cbv beta in F.
+      match goal with |- okp _ (match ?X with _ => _ end) => destruct X as [s3|e] end; [|exact I].
+      cbn [okp] in F |- *. destruct F as [B13 N3]. cbn [app] in N3.
+      assert (B3 : bundle s s3) by (eapply bundle_trans; eauto).
+      split; [apply bundle_ucredits; exact B3|].
+      intros j D Hj HD. unfold pend. cbn [ps_unmined set_ucredits]. fold (pend s3 D).
+      apply in_app_or in Hj. destruct Hj as [Hj|[<-|[]]].
+      + exact (shrinks_none s1 s3 D (proj1 B13) (D1 j D Hj HD)).
+      + destruct (proj1 (proj2 B1) (h, i)) as [E|[E (Y & tY & P1 & P2 & P3)]].
+        * apply N3. rewrite E. exact HD.
+        * destruct (pend s D) as [vD|] eqn:ED; [|exact (shrinks_none s s3 D (proj1 B3) ED)].
+          destruct vD as [tD|]; [|exfalso; exact (proj2 (proj2 G) D ED)].
+          assert (HDin : In (h, i) (t_ins tD)) by (eapply (proj1 (proj2 G)); eauto).
+          assert (EY : Y = D) by (eapply (proj1 G); eauto). subst Y.
+          exact (shrinks_none s1 s3 D (proj1 B13) P2). }
+  specialize (Hfold (out_indexes t) [] (POk s)).
+  assert (H0 : okp (fun s1 => bundle s s1 /\ forall i D, In i [] -> In D (ui_get (ps_uinputs s) (h, i)) -> pend s1 D = None) (POk s)).
+  { split; [apply bundle_refl|intros i D []]. }
+  specialize (Hfold H0). cbn [app] in Hfold.
+  destruct (fold_left per_out (out_indexes t) (POk s)) as [s4|e]; [|exact I].
+  cbn [okp] in Hfold |- *. destruct Hfold as [((A4 & B4 & C4) & I4 & Cl4 & K4) D4].
+  set (s' := set_unmined (set_ugame (set_uinputs s4 (del_inputs_of (ps_uinputs s4) t))
+                 (rm_ugame_rows own (ps_ugame (set_uinputs s4 (del_inputs_of (ps_uinputs s4) t))) h t))
+               (um_del (ps_unmined (set_ugame (set_uinputs s4 (del_inputs_of (ps_uinputs s4) t))
+                 (rm_ugame_rows own (ps_ugame (set_uinputs s4 (del_inputs_of (ps_uinputs s4) t))) h t))) h)).
+  assert (Epend : forall k, pend s' k = if (h =? k)%N then None else pend s4 k).
+  { intros k. unfold pend, s'. cbn [ps_unmined set_unmined set_ugame set_uinputs]. apply um_get_del. }
+  assert (Eui : forall o, ui_get (ps_uinputs s') o = if existsb (op_eqb o) (t_ins t) then [] else ui_get (ps_uinputs s4) o).
+  { intros o. unfold s'. cbn [ps_uinputs set_unmined set_ugame set_uinputs]. apply ui_get_del_inputs. }
+  assert (S4' : shrinks s4 s').
+  { repeat split.
+    - intros k v Hv. fold (pend s' k) in Hv. rewrite Epend in Hv. destruct (h =? k)%N; [discriminate|exact Hv].
+    - intros o c Hc. exact Hc.
+    - intros o sp Hsp. rewrite Eui in Hsp. destruct (existsb (op_eqb o) (t_ins t)); [destruct Hsp|exact Hsp]. }
+  assert (S' : shrinks s s') by (eapply shrinks_trans; [|exact S4']; repeat split; assumption).
+  assert (Nh : pend s' h = None) by (rewrite Epend, N.eqb_refl; reflexivity).
+  split; [|exact Nh]. split; [exact S'|]. split; [|split].
+  - intros o. rewrite Eui. destruct (existsb (op_eqb o) (t_ins t)) eqn:Eo.
+    + right. split; [reflexivity|]. exists h, t. split; [exact Hp|]. split; [exact Nh|]. apply existsb_op_in. exact Eo.
+    + destruct (I4 o) as [E|[E (X & tX & P1 & P2 & P3)]]; [left; exact E|].
+      right. split; [exact E|]. exists X, tX. split; [exact P1|]. split; [exact (shrinks_none s4 s' X S4' P2)|exact P3].
+  - intros X tX i D HX HX' Hi HD.
+    destruct (N.eq_dec X h) as [->|Hne].
+    + assert (tX = t) by congruence. subst tX.
+      exact (shrinks_none s4 s' D S4' (D4 i D Hi HD)).
+    + rewrite Epend in HX'. assert (Ehx : (h =? X)%N = false) by (apply N.eqb_neq; congruence). rewrite Ehx in HX'.
+      exact (shrinks_none s4 s' D S4' (Cl4 X tX i D HX HX' Hi HD)).
+  - intros X tX o HX HX' Ho. rewrite Eui.
+    destruct (existsb (op_eqb o) (t_ins t)) eqn:Eo; [reflexivity|].
+    destruct (N.eq_dec X h) as [->|Hne].
+    + assert (tX = t) by congruence. subst tX. apply existsb_op_in in Ho. congruence.
+    + rewrite Epend in HX'. assert (Ehx : (h =? X)%N = false) by (apply N.eqb_neq; congruence). rewrite Ehx in HX'.
+      exact (K4 X tX o HX HX' Ho).
+Qed.
+
+(* descendants of a pending transaction through registered spends *)
+Inductive desc (s : pstate) : N -> N -> Prop :=
+| desc_child : forall X tX i D, pend s X = Some (USer tX) -> In i (out_indexes tX) ->
+                                In D (ui_get (ps_uinputs s) (X, i)) -> desc s X D
+| desc_step : forall X Y D, desc s X Y -> desc s Y D -> desc s X D.
+
+Lemma closed_desc : forall s s' X D, bundle s s' -> desc s X D -> pend s' X = None -> pend s' D = None.
+Proof.
+  intros s s' X D B Hd. induction Hd as [X tX i D HX Hi HD|X Y D _ IH1 _ IH2]; intros HN.
+  - exact (proj1 (proj2 (proj2 B)) X tX i D HX HN Hi HD).
+  - apply IH2. apply IH1. exact HN.
+Qed.
+
+(* a registered spender that is pending is gone after the key was processed, even when the key had been
+   deleted meanwhile — under the guard, only that spender's own removal can have deleted it *)
+Lemma spender_gone :
+  forall s s1 s3 k D,
+    guard s -> bundle s s1 -> shrinks s1 s3 ->
+    (forall x, In x (ui_get (ps_uinputs s1) k) -> pend s3 x = None) ->
+    In D (ui_get (ps_uinputs s) k) -> pend s3 D = None.
+Proof.
+  intros s s1 s3 k D G B1 S13 N3 HD.
+  destruct (proj1 (proj2 B1) k) as [E|[E (Y & tY & P1 & P2 & P3)]].
+  - apply N3. rewrite E. exact HD.
+  - destruct (pend s D) as [vD|] eqn:ED.
+    + destruct vD as [tD|]; [|exfalso; exact (proj2 (proj2 G) D ED)].
+      assert (HDin : In k (t_ins tD)) by (eapply (proj1 (proj2 G)); eauto).
+      assert (EY : Y = D) by (eapply (proj1 G); eauto). subst Y.
+      exact (shrinks_none s1 s3 D S13 P2).
+    + apply (shrinks_none s1 s3 D S13). exact (shrinks_none s s1 D (proj1 B1) ED).
+Qed.
+
+Lemma remove_spenders_bundle :
+  forall own s k, guard s ->
+    okp (fun s' => bundle s s' /\ forall x, In x (ui_get (ps_uinputs s) k) -> pend s' x = None) (remove_spenders own s k).
+Proof.
+  intros own s k G. unfold remove_spenders.
+  pose proof (fold_spenders_bundle (fun s2 sp st => remove_conflict (conflict_fuel s2) own s2 sp st) s G
+                (fun s2 sp st G2 P2 => remove_conflict_bundle (conflict_fuel s2) own s2 sp st G2 P2)
+                (ui_get (ps_uinputs s) k) s [] (bundle_refl s) (fun x Hx => match Hx with end)) as F.
+  cbv beta in F. exact F.
+Qed.
+
+(* C09, conflicts: when a mined transaction spends a wallet coin, every pending transaction registered as
+   a spender of that coin is removed together with all its registered descendants, and no entry of the
+   unmined-inputs bucket mentions a removed transaction any more *)
+Theorem conflict_purges_descendants :
+  forall own s r s', guard s -> remove_double_spends own s r = POk s' ->
+    (forall ri T, In ri (rr_ins r) -> In T (ui_get (ps_uinputs s) (ri_prev ri)) ->
+        pend s' T = None /\ forall D, desc s T D -> pend s' D = None) /\
+    (forall X tX, pend s X = Some (USer tX) -> pend s' X = None ->
+        (forall o, ~ In X (ui_get (ps_uinputs s') o)) /\
+        (forall o, In o (t_ins tX) -> spent_by_unmined s' o = false)) /\
+    shrinks s s'.
+Proof.
+  intros own s r s' G H. unfold remove_double_spends in H.
+  (* invariant of the loop over the relevant inputs *)
+  assert (Hloop : forall ins done_ acc,
+            okp (fun s1 => bundle s s1 /\ forall ri T, In ri done_ -> In T (ui_get (ps_uinputs s) (ri_prev ri)) -> pend s1 T = None) acc ->
+            okp (fun s1 => bundle s s1 /\ forall ri T, In ri (done_ ++ ins) -> In T (ui_get (ps_uinputs s) (ri_prev ri)) -> pend s1 T = None)
+                (fold_left (fun (acc : pres pstate) (ri : rel_in) =>
+                              match acc with PErr e => PErr e | POk s1 => remove_spenders own s1 (ri_prev ri) end) ins acc)).
+  { induction ins as [|ri ins IHi]; intros done_ acc Hacc; cbn [fold_left].
+    - rewrite app_nil_r. exact Hacc.
+    - replace (done_ ++ ri :: ins) with ((done_ ++ [ri]) ++ ins) by (rewrite <- app_assoc; reflexivity).
+      apply IHi. destruct acc as [s1|e]; [|exact I]. cbn [okp] in Hacc. destruct Hacc as [B1 D1].
+      assert (G1 : guard s1) by (eapply guard_shrinks; [exact G|exact (proj1 B1)]).
+      pose proof (remove_spenders_bundle own s1 (ri_prev ri) G1) as F.
+      destruct (remove_spenders own s1 (ri_prev ri)) as [s3|e]; [|exact I].
+      cbn [okp] in F |- *. destruct F as [B13 N3].
+      split; [eapply bundle_trans; eauto|].
+      intros rj T Hj HT. apply in_app_or in Hj. destruct Hj as [Hj|[<-|[]]].
+      + exact (shrinks_none s1 s3 T (proj1 B13) (D1 rj T Hj HT)).
+      + exact (spender_gone s s1 s3 (ri_prev ri) T G B1 (proj1 B13) N3 HT). }
+  specialize (Hloop (rr_ins r) [] (POk s)).
+  assert (H0 : okp (fun s1 => bundle s s1 /\ forall ri T, In ri [] -> In T (ui_get (ps_uinputs s) (ri_prev ri)) -> pend s1 T = None) (POk s)).
+  { split; [apply bundle_refl|intros ri T []]. }
+  specialize (Hloop H0). cbn [app] in Hloop.
+  destruct (fold_left _ (rr_ins r) (POk s)) as [s2|e]; [|discriminate].
+  cbn [okp] in Hloop. destruct Hloop as [B2 D2]. inversion H; subst s'.
+  set (s' := set_uinputs s2 (del_inputs_of (ps_uinputs s2) (rr_tx r))).
+  assert (Ep : forall k, pend s' k = pend s2 k) by reflexivity.
+  assert (S2' : shrinks s2 s').
+  { repeat split; auto. intros o sp Hsp. unfold s' in Hsp. cbn [ps_uinputs set_uinputs] in Hsp. eapply del_inputs_sub. exact Hsp. }
+  split; [|split].
+  - intros ri T Hri HT. rewrite !Ep. split; [exact (D2 ri T Hri HT)|].
+    intros D Hd. rewrite Ep. exact (closed_desc s s2 T D B2 Hd (D2 ri T Hri HT)).
+  - intros X tX HX HX'. rewrite Ep in HX'.
+    assert (Hclr : forall o, In o (t_ins tX) -> ui_get (ps_uinputs s') o = []).
+    { intros o Ho. apply (ui_get_empty_sub s2 s' o S2'). exact (proj2 (proj2 (proj2 B2)) X tX o HX HX' Ho). }
+    split.
+    + intros o Hin.
+      assert (Hs : In X (ui_get (ps_uinputs s) o)).
+      { apply (proj2 (proj2 (proj1 B2))). apply (proj2 (proj2 S2')). exact Hin. }
+      assert (Ho : In o (t_ins tX)) by (eapply (proj1 (proj2 G)); eauto).
+      rewrite (Hclr o Ho) in Hin. destruct Hin.
+    + intros o Ho. unfold spent_by_unmined. rewrite (Hclr o Ho). reflexivity.
+  - eapply shrinks_trans; [exact (proj1 B2)|exact S2'].
+Qed.
+
+(* ================================================================ C09: the flag *)
+
+(* filterTx for an unconfirmed transaction recognises every input whose previous output is found and
+   pays a script hash of a ready wallet *)
+Lemma filter_ins_unmined_complete :
+  forall own lk ins i l, filter_ins_unmined own lk ins i = Ok l ->
+    forall ph pv pt o w, In (ph, pv) ins -> lk ph = Some pt -> nth_error (t_outs pt) (N.to_nat pv) = Some o ->
+      o_class o <> CUnsupported -> own (o_sh o) = Some w ->
+      exists ri, In ri l /\ ri_prev ri = (ph, pv) /\ ri_wallet ri = w.
+Proof.
+  intros own lk ins. induction ins as [|[qh qv] rest IH]; intros i l H ph pv pt o w Hin Hlk Hnth Hcls Hown; [destruct Hin|].
+  cbn [filter_ins_unmined] in H.
+  destruct (lk qh) as [qt|] eqn:Eq; [|discriminate].
+  destruct (nth_error (t_outs qt) (N.to_nat qv)) as [qo|] eqn:En; [|discriminate].
+  destruct Hin as [E|Hin].
+  - inversion E; subst qh qv. rewrite Hlk in Eq. inversion Eq; subst qt. rewrite Hnth in En. inversion En; subst qo.
+    destruct (o_class o) eqn:Ec; try congruence;
+      (rewrite Hown in H; destruct (filter_ins_unmined own lk rest (i + 1)%N) as [l'|e]; [|discriminate];
+       inversion H; subst l; eexists; split; [left; reflexivity|split; reflexivity]).
+  - assert (Hc : forall l', filter_ins_unmined own lk rest (i + 1)%N = Ok l' ->
+                  exists ri, In ri l' /\ ri_prev ri = (ph, pv) /\ ri_wallet ri = w).
+    { intros l' Hl'. eapply IH; eauto. }
+    destruct (o_class qo); try (apply Hc; exact H);
+      (destruct (own (o_sh qo)) as [w'|]; [|apply Hc; exact H];
+       destruct (filter_ins_unmined own lk rest (i + 1)%N) as [l'|e] eqn:E; [|discriminate];
+       inversion H; subst l; destruct (Hc l' eq_refl) as [ri [H1 H2]]; exists ri; split; [right; exact H1|exact H2]).
+Qed.
+
+(* C09, flag: once an unconfirmed transaction has been accepted, every coin it spends that the wallet
+   can recognise as its own (the previous transaction is known to the node or pending, the output pays a
+   ready wallet) is reported spent_by_unmined, is not eligible for new transactions, and the transaction
+   can be read back from the pending set *)
+Theorem receive_flags :
+  forall p own n s t s', receive_store p own n s t = POk (Some s') -> pend s (t_id t) = None ->
+    read_unmined s' (t_id t) = RdOk t /\
+    forall ph pv pt o w, In (ph, pv) (t_ins t) ->
+      lookup_pending n (ps_unmined s) ph = Some pt -> nth_error (t_outs pt) (N.to_nat pv) = Some o ->
+      o_class o <> CUnsupported -> own (o_sh o) = Some w ->
+      In (t_id t) (ui_get (ps_uinputs s') (ph, pv)) /\ spent_by_unmined s' (ph, pv) = true /\
+      forall c, credit_op c = (ph, pv) -> eligible s' c = false.
+Proof.
+  intros p own n s t s' H Hp. unfold receive_store in H. unfold pend in Hp.
+  destruct (t_cb t) eqn:Ecb.
+  { cbn in H. destruct (filter_outs own (t_outs t) 0%N); discriminate. }
+  destruct (filter_ins_unmined own (lookup_pending n (ps_unmined s)) (t_ins t) 0%N) as [ins|e] eqn:Eins; [|discriminate].
+  rewrite Hp in H.
+  set (s1 := set_uinputs (set_unmined s (um_put (ps_unmined s) (t_id t) (USer t)))
+               (fold_left (fun ui ri => ui_append ui (ri_prev ri) (t_id t)) ins
+                  (ps_uinputs (set_unmined s (um_put (ps_unmined s) (t_id t) (USer t)))))) in *.
+  assert (Hs' : ps_unmined s' = ps_unmined s1 /\ ps_uinputs s' = ps_uinputs s1).
+  { destruct ins as [|i0 ins']; destruct (filter_outs own (t_outs t) 0%N) as [|o0 outs']; try discriminate;
+      try (inversion H; subst s'; split; reflexivity);
+      (destruct (add_ucredits p (credits (ps_w s1)) (ps_ucredits s1) (t_id t) (o0 :: outs')); [|discriminate];
+       inversion H; subst s'; split; reflexivity). }
+  destruct Hs' as [Eu Ei]. split.
+  - unfold read_unmined. rewrite Eu. cbn [ps_unmined s1 set_uinputs set_unmined]. rewrite um_get_put, N.eqb_refl. reflexivity.
+  - intros ph pv pt o w Hin Hlk Hnth Hcls Hown.
+    destruct (filter_ins_unmined_complete _ _ _ _ _ Eins ph pv pt o w Hin Hlk Hnth Hcls Hown) as [ri [Hri [Hprev _]]].
+    assert (Hreg : In (t_id t) (ui_get (ps_uinputs s') (ph, pv))).
+    { rewrite Ei. cbn [ps_uinputs s1 set_uinputs]. rewrite <- Hprev.
+      clear -Hri. generalize (ps_uinputs (set_unmined s (um_put (ps_unmined s) (t_id t) (USer t)))).
+      induction ins as [|r0 ins IH]; intros ui; [destruct Hri|]. cbn [fold_left].
+      destruct Hri as [<-|Hri]; [|apply IH; exact Hri].
+      assert (G : forall l ui0 o sp, In sp (ui_get ui0 o) ->
+                    In sp (ui_get (fold_left (fun ui1 ri0 => ui_append ui1 (ri_prev ri0) (t_id t)) l ui0) o)).
+      { induction l as [|x l IHl]; intros ui0 o sp Hsp; cbn [fold_left]; [exact Hsp|].
+        apply IHl. rewrite ui_get_append. destruct (op_eqb (ri_prev x) o) eqn:E; [|exact Hsp].
+        apply op_eqb_eq in E. subst o. apply in_or_app. left. exact Hsp. }
+      apply G. rewrite ui_get_append, op_eqb_refl. apply in_or_app. right. left. reflexivity. }
+    split; [exact Hreg|].
+    assert (Hflag : spent_by_unmined s' (ph, pv) = true).
+    { unfold spent_by_unmined. destruct (ui_get (ps_uinputs s') (ph, pv)); [destruct Hreg|reflexivity]. }
+    split; [exact Hflag|]. intros c Hc. apply eligible_not_flagged. rewrite Hc. exact Hflag.
+Qed.
+
+(* the flag is kept: while a pending transaction survives a mined record, its registrations survive,
+   except under the outpoints the mined transaction itself spends (a surviving spender of such an
+   outpoint is a double spend the wallet did not see as its own: finding stale-pending:foreign-input) *)
+Theorem flag_kept_by_mined_record :
+  forall p own h bid s r s', guard s -> p_apply_rec p own h bid s r = POk s' ->
+    forall o sp, In sp (ui_get (ps_uinputs s) o) -> pend s' sp <> None ->
+      ~ In o (t_ins (rr_tx r)) -> In sp (ui_get (ps_uinputs s') o).
+Proof.
+  intros p own h bid s r s' G H o sp Hreg Hsurv Hno. unfold p_apply_rec in H.
+  set (s0 := set_blocks s (br_add (ps_blocks s) h bid (rr_tx r))) in *.
+  destruct (withdraw_ins (credits (ps_w s0)) (ps_game s0) (rr_tx r) h (rr_ins r)) as [[cs1 g1]|e]; [|discriminate].
+  set (sa := set_game (set_credits s0 cs1) g1) in *.
+  set (s1 := settle sa (rr_tx r)) in *.
+  assert (S1 : shrinks s s1) by (apply (settle_shrinks sa (rr_tx r))).
+  assert (G1 : guard s1) by (eapply guard_shrinks; eauto).
+  assert (Ui1 : ps_uinputs s1 = ps_uinputs s) by (unfold s1; rewrite (proj1 (settle_frame sa (rr_tx r))); reflexivity).
+  unfold remove_double_spends in H.
+  (* the loop over the relevant inputs keeps the bundle *)
+  assert (Hloop : forall ins acc, okp (bundle s1) acc ->
+            okp (bundle s1) (fold_left (fun (acc : pres pstate) (ri : rel_in) =>
+                              match acc with PErr e => PErr e | POk s2 => remove_spenders own s2 (ri_prev ri) end) ins acc)).
+  { induction ins as [|ri ins IHi]; intros acc Hacc; cbn [fold_left]; [exact Hacc|].
+    apply IHi. destruct acc as [s2|e]; [|exact I]. cbn [okp] in Hacc.
+    assert (G2 : guard s2) by (eapply guard_shrinks; [exact G1|exact (proj1 Hacc)]).
+    pose proof (remove_spenders_bundle own s2 (ri_prev ri) G2) as F.
+    destruct (remove_spenders own s2 (ri_prev ri)) as [s3|e]; [|exact I].
+    cbn [okp] in F |- *. eapply bundle_trans; [exact G1|exact Hacc|exact (proj1 F)]. }
+  specialize (Hloop (rr_ins r) (POk s1) (bundle_refl s1)).
+  destruct (fold_left _ (rr_ins r) (POk s1)) as [s2|e]; [|discriminate]. cbn [okp] in Hloop.
+  destruct (apply_outs p _ (rr_tx r) h bid (rr_outs r)) as [cs2|e]; [|discriminate].
+  inversion H; subst s'.
+  match goal with |- In sp (ui_get (ps_uinputs (add_game ?S _ _ _)) o) =>
+    destruct (add_game_frame (rr_outs r) S (t_id (rr_tx r)) h) as (A & _ & C & _) end.
+  rewrite A. cbn [ps_uinputs set_credits set_w set_uinputs].
+  unfold pend in Hsurv. rewrite C in Hsurv. cbn [ps_unmined set_credits set_w set_uinputs] in Hsurv. fold (pend s2 sp) in Hsurv.
+  rewrite ui_get_del_inputs.
+  destruct (existsb (op_eqb o) (t_ins (rr_tx r))) eqn:Eo; [apply existsb_op_in in Eo; contradiction|].
+  destruct (proj1 (proj2 Hloop) o) as [E|[E (Y & tY & P1 & P2 & P3)]].
+  - rewrite E, Ui1. exact Hreg.
+  - (* the key was deleted with a removed transaction Y spending o: then Y = sp, which survives: contradiction *)
+    exfalso. destruct (pend s1 sp) as [v|] eqn:Es1.
+    + destruct v as [tsp|]; [|exact (proj2 (proj2 G1) sp Es1)].
+      assert (Hin : In o (t_ins tsp)). { eapply (proj1 (proj2 G1)); [rewrite Ui1; exact Hreg|exact Es1]. }
+      assert (EY : Y = sp) by (eapply (proj1 G1); eauto). subst Y. contradiction.
+    + apply Hsurv. exact (shrinks_none s1 s2 sp (proj1 Hloop) Es1).
+Qed.
+
+(* ================================================================ without the guard: the flag is lost *)
+
+(* finding flag-lost:shared-input-key.  Two pending transactions T1 = {a, b} and T2 = {a, c} share the
+   wallet coin a; a transaction spending b confirms: removeConflict(T1) deletes the whole key of a
+   (deleteUnminedInputs), although T2 is still pending and spends a *)
+Module SharedKey.
+  Definition p : params := {| p_cbmat := 1; p_bindlock := 4294967294 |}.
+  Definition g : block := {| b_id := 0; b_prev := 0; b_height := 0; b_txs := [] |}.
+  Definition cb (id : N) : tx := {| t_id := id; t_cb := true; t_ins := []; t_outs := [ {| o_sh := 1; o_val := 5; o_class := CStd |} ] |}.
+  Definition b1 : block := {| b_id := 1; b_prev := 0; b_height := 1; b_txs := [cb 1] |}.
+  Definition b2 : block := {| b_id := 2; b_prev := 1; b_height := 2; b_txs := [cb 2] |}.
+  Definition b3 : block := {| b_id := 3; b_prev := 2; b_height := 3; b_txs := [cb 3] |}.
+  Definition pay (v : Z) : txout := {| o_sh := 9; o_val := v; o_class := CStd |}.
+  Definition t1 : tx := {| t_id := 10; t_cb := false; t_ins := [(1, 0); (2, 0)]%N; t_outs := [pay 10] |}.
+  Definition t2 : tx := {| t_id := 11; t_cb := false; t_ins := [(1, 0); (3, 0)]%N; t_outs := [pay 10] |}.
+  Definition t3 : tx := {| t_id := 12; t_cb := false; t_ins := [(2, 0)]%N; t_outs := [pay 5] |}.
+  Definition b4 : block := {| b_id := 4; b_prev := 3; b_height := 4; b_txs := [cb 4; t3] |}.
+  Definition evs : list pevent :=
+    [PvOwner 1 1; PvAttach b1; PvProcess b1; PvAttach b2; PvProcess b2; PvAttach b3; PvProcess b3;
+     PvReceive t1; PvReceive t2; PvAttach b4; PvProcess b4].
+End SharedKey.
+
+Theorem flag_lost_shared_key_refuted :
+  let s := h_store (q_h (prun SharedKey.p true SharedKey.g SharedKey.evs)) in
+  Forall event_ordered SharedKey.evs /\
+  read_unmined s 11%N = RdOk SharedKey.t2 /\ In (1, 0)%N (t_ins SharedKey.t2) /\
+  spent_by_unmined s (1, 0)%N = false /\
+  exists c, In c (eligible_list s 1%N) /\ credit_op c = (1, 0)%N.
+Proof.
+  cbv zeta. split.
+  - unfold SharedKey.evs. repeat constructor; cbn; unfold block_ordered, tx_ordered; cbn;
+      intros; repeat match goal with H : _ \/ _ |- _ => destruct H | H : False |- _ => destruct H end; subst; cbn in *;
+      repeat match goal with H : _ \/ _ |- _ => destruct H | H : False |- _ => destruct H end; subst; cbn; reflexivity.
+  - split; [vm_compute; reflexivity|]. split; [left; reflexivity|]. split; [vm_compute; reflexivity|].
+    eexists. split; [vm_compute; left; reflexivity|reflexivity].
+Qed.
